@@ -140,6 +140,10 @@ func (c *Ctx) callersTestResult(fn *ssa.Function) string {
 				if _, ok := use.(*ssa.DebugRef); ok {
 					continue
 				}
+				// kept as data (assigned to a field or variable), not dereferenced here
+				if st, ok := use.(*ssa.Store); ok && st.Val == ssa.Value(ex) {
+					continue
+				}
 				guarded := false
 				for _, ft := range cfi.factsAt(use.Block()) {
 					bo, ok := ft.Cond.(*ssa.BinOp)
@@ -1060,13 +1064,68 @@ func ruleIO1(c *Ctx) {
 			scanErr = call
 		}
 	})
+	// the parse-then-add step may live in a same-package helper that returns the step's error: the ordering is then
+	// judged inside the helper, and the helper's call stands for the add in the counting rule
+	addFi := fi
+	var stepCall *ssa.Call
+	if parse == nil && add == nil {
+		allInstrs(fn, func(in ssa.Instruction) {
+			call, ok := in.(*ssa.Call)
+			if !ok || stepCall != nil {
+				return
+			}
+			h := helperCallee(fn, &call.Call)
+			if h == nil || h.Signature.Results().Len() != 1 || errorResultIndex(h.Signature) != 0 {
+				return
+			}
+			var hp, ha *ssa.Call
+			allInstrs(h, func(i2 ssa.Instruction) {
+				c2, ok := i2.(*ssa.Call)
+				if !ok {
+					return
+				}
+				if f := c2.Call.StaticCallee(); f != nil && f.Name() == "Parse" && f.Pkg != nil && f.Pkg.Pkg.Path() == modPath+"/triple" {
+					hp = c2
+				}
+				if c2.Call.IsInvoke() && c2.Call.Method.Name() == "AddTriples" {
+					ha = c2
+				}
+			})
+			if hp == nil || ha == nil {
+				return
+			}
+			// the helper reports success only when the add succeeded
+			hfi := c.fi(h)
+			okRet := true
+			for _, r := range c.returnsOf(h) {
+				rv := resultValues(r)[0]
+				if rv == ssa.Value(ha) {
+					continue
+				}
+				if isNilConst(rv) {
+					nilEdge := false
+					for _, ft := range hfi.factsAt(r.Block()) {
+						if bo, ok := ft.Cond.(*ssa.BinOp); ok && bo.X == ssa.Value(ha) && isNilConst(bo.Y) && (bo.Op == token.EQL) == ft.Truth {
+							nilEdge = true
+						}
+					}
+					if !nilEdge {
+						okRet = false
+					}
+				}
+			}
+			if okRet {
+				parse, add, addFi, stepCall = hp, ha, hfi, call
+			}
+		})
+	}
 	if parse == nil || add == nil {
 		c.bad("ReadIntoGraph parses then adds", fn.Pos(), "the reader no longer calls triple.Parse and Graph.AddTriples")
 		return
 	}
 	// add dominated by parse succeeded
 	parsedOK := false
-	for _, ft := range fi.factsAt(add.Block()) {
+	for _, ft := range addFi.factsAt(add.Block()) {
 		if bo, ok := ft.Cond.(*ssa.BinOp); ok && isNilConst(bo.Y) {
 			if ex, ok := bo.X.(*ssa.Extract); ok && ex.Tuple == ssa.Value(parse) && (bo.Op == token.EQL) == ft.Truth {
 				parsedOK = true
@@ -1089,7 +1148,11 @@ func ruleIO1(c *Ctx) {
 	okInc := false
 	if inc != nil {
 		for _, ft := range fi.factsAt(inc.Block()) {
-			if bo, ok := ft.Cond.(*ssa.BinOp); ok && bo.X == ssa.Value(add) && isNilConst(bo.Y) && (bo.Op == token.EQL) == ft.Truth {
+			addErr := ssa.Value(add)
+			if stepCall != nil {
+				addErr = stepCall
+			}
+			if bo, ok := ft.Cond.(*ssa.BinOp); ok && bo.X == addErr && isNilConst(bo.Y) && (bo.Op == token.EQL) == ft.Truth {
 				okInc = true
 			}
 		}
